@@ -1,5 +1,6 @@
 import Pkgcore.Base.Proto
 import Pkgcore.Spec.C10
+import Pkgcore.Model.C10Solver
 import Pkgcore.Driver.C09
 namespace Pkgcore.Driver.C10
 open Lean Pkgcore.Proto Pkgcore.C10
@@ -17,6 +18,8 @@ def handle : Handler := fun cmd j =>
     let sols := solve inp ts
     let vars := variables inp ts
     pure (Json.mkObj [("solutions", .arr (sols.map assignJson).toArray),
+      -- the faithful solver model: the solutions in the order the real solver yields them
+      ("ordered", .arr ((solveFaithful inp ts).map assignJson).toArray),
       ("preferred", assignJson (Spec.preferred inp vars)),
       ("guard", .bool (Spec.choiceCondFreeL ts && Spec.nonEmptyL ts))])
   | "c10.eval" => do
@@ -29,5 +32,27 @@ def handle : Handler := fun cmd j =>
         pure (Json.arr #[.bool ((compiled ts).all fun c => c.eval on), .bool (Spec.evalRU ts on)])
       | _ => none
     pure (.arr outs.toArray)
+  | "c10.csp" => do
+    -- a raw constraint problem for the solver model: {"vars": [[name, [int, …]], …], "cons": [[[name, …], [[int, …], …]], …]}
+    -- (a table constraint: the values of the scope, in the order given, must be one of the listed tuples);
+    -- answer: the solutions in the order they are yielded, each as the values of the variables in the order of "vars"
+    let vars ← (← getArr j "vars").mapM fun e => match e with
+      | .arr #[.str n, .arr vs] => do
+        let vals ← vs.toList.mapM fun x => (x.getInt?).toOption
+        pure (n.toList, vals)
+      | _ => none
+    let cons ← (← getArr j "cons").mapM fun e => match e with
+      | .arr #[.arr sc, .arr rows] => do
+        let scope ← sc.toList.mapM fun x => match x with | .str s => some s.toList | _ => none
+        let table ← rows.toList.mapM fun r => match r with
+          | .arr r => r.toList.mapM fun x => (x.getInt?).toOption
+          | _ => none
+        pure ({ scope := scope, pred := fun kw => table.contains (scope.filterMap kw) && scope.all fun x => (kw x).isSome }
+          : Solver.Constraint Tok Int)
+      | _ => none
+    let P : Solver.Problem Tok Int := { vars := vars, cons := cons, lt := ltTok }
+    let names := vars.map (·.1)
+    pure (.arr ((Solver.solve P).map fun s =>
+      Json.arr (names.map fun n => match s.lookup n with | some v => Json.num (Lean.JsonNumber.fromInt v) | none => Json.null).toArray).toArray)
   | _ => none
 end Pkgcore.Driver.C10
